@@ -222,6 +222,7 @@ MC_RUNS = {
     "MC_RunDeep":     ("MC_Run.tla", "MC_RunDeep.cfg", ("thorough",), 14),
     "MC_Life":        ("MC_Run.tla", "MC_Life.cfg", ("quick", "thorough"), 8),
     "MC_Live":        ("MC_Run.tla", "MC_Live.cfg", ("thorough",), 12),
+    "MC_LiveQuick":   ("MC_Run.tla", "MC_LiveQuick.cfg", ("quick",), 12),
     "MC_Step":        ("MC_StepDefs.tla", "MC_Step.cfg", ("quick",), 12),
     "MC_StepDeep":    ("MC_StepDefs.tla", "MC_StepDeep.cfg", ("thorough",), 14),
     "MC_StepMemo":    ("MC_StepDefs.tla", "MC_StepMemo.cfg", ("quick", "thorough"), 12),
